@@ -30,6 +30,8 @@ enum Stmt {
     Ins(Tid, Vec<Vec<Val>>),
     Upd(Tid, Vec<(usize, Val)>, Option<Expr>),
     Del(Tid, Option<Expr>),
+    /// UPDATE t SET x<col> = <arithmetic expression over the old row> [WHERE ..]
+    UpdE(Tid, usize, Expr, Option<Expr>),
 }
 #[derive(Clone, Debug, PartialEq)]
 enum Obs { Seen(bool, Vec<Vec<Val>>, Vec<Vec<Val>>), Bad }
@@ -131,6 +133,8 @@ impl Stmt {
                 sets.iter().map(|(c, v)| format!("{} = {}", cname(*c), val_sql(v))).collect::<Vec<_>>().join(", "),
                 match w { Some(e) => format!(" WHERE {}", where_sql(e)), None => String::new() }),
             Stmt::Del(t, w) => format!("DELETE FROM {}{}", t.name(), match w { Some(e) => format!(" WHERE {}", where_sql(e)), None => String::new() }),
+            Stmt::UpdE(t, c, e, w) => format!("UPDATE {} SET {} = {}{}", t.name(), cname(*c), expr_sql(e),
+                match w { Some(e) => format!(" WHERE {}", where_sql(e)), None => String::new() }),
         }
     }
     fn coq(&self) -> String {
@@ -138,6 +142,7 @@ impl Stmt {
             Stmt::Ins(t, rows) => format!("SIns {} {}", t.coq(), rows_coq(rows)),
             Stmt::Upd(t, sets, w) => format!("SUpd {} [{}] {}", t.coq(), sets.iter().map(|(c, v)| format!("({}%nat, {})", c, v.to_coq())).collect::<Vec<_>>().join("; "), wcoq(w)),
             Stmt::Del(t, w) => format!("SDel {} {}", t.coq(), wcoq(w)),
+            Stmt::UpdE(t, c, e, w) => format!("SUpdE {} {}%nat {} {}", t.coq(), c, e.to_coq(), wcoq(w)),
         }
     }
     fn tok(&self) -> String {
@@ -145,6 +150,7 @@ impl Stmt {
             Stmt::Ins(t, rows) => format!("I{}:{}", t.name(), rows.iter().map(|r| r.iter().map(|v| v.to_tok()).collect::<Vec<_>>().join(",")).collect::<Vec<_>>().join("/")),
             Stmt::Upd(t, sets, w) => format!("U{}:{}:{}", t.name(), sets.iter().map(|(c, v)| format!("{}={}", c, v.to_tok())).collect::<Vec<_>>().join("&"), wline(w)),
             Stmt::Del(t, w) => format!("D{}:{}", t.name(), wline(w)),
+            Stmt::UpdE(t, c, e, w) => format!("E{}:{}={}:{}", t.name(), c, e.to_line(), wline(w)),
         }
     }
     fn from_tok(s: &str) -> Option<Stmt> {
@@ -165,6 +171,11 @@ impl Stmt {
                 Some(Stmt::Upd(t, sets, wparse(w)?))
             }
             'D' => Some(Stmt::Del(t, wparse(rest)?)),
+            'E' => {
+                let (a, w) = rest.split_once(':')?;
+                let (c, e) = a.split_once('=')?;
+                Some(Stmt::UpdE(t, c.trim().parse().ok()?, Expr::from_line(e.trim())?, wparse(w)?))
+            }
             _ => None,
         }
     }
@@ -323,6 +334,17 @@ fn spec_step(sch: &Schema, d: &Db, s: &Stmt) -> Option<(bool, Db)> {
             let tab = match t { Tid::P => &mut n.0, Tid::C => &mut n.1 };
             for r in tab.iter_mut() { if wsel(w, r)? { for (c, v) in sets { r[*c] = v.clone(); } } }
         }
+        Stmt::UpdE(t, c, e, w) => {
+            let k = sch.cols(*t).len();
+            if *c >= k { return None; }
+            if *t == Tid::P && !fk_std(sch, &d.0) { return None; }
+            let tab = match t { Tid::P => &mut n.0, Tid::C => &mut n.1 };
+            for r in tab.iter_mut() { if wsel(w, r)? {
+                let v = sqlgen::eval(e, r)?;
+                if !matches!(v, Val::Null | Val::Int(_)) { return None; }
+                r[*c] = v;
+            } }
+        }
         Stmt::Del(t, w) => {
             if *t == Tid::P && !fk_std(sch, &d.0) { return None; }
             let tab = match t { Tid::P => &d.0, Tid::C => &d.1 };
@@ -433,6 +455,62 @@ fn gen_history(rng: &mut Rng, fam: &str) -> (Schema, Vec<Stmt>) {
                 if rng.chance(1, 5) && !h.is_empty() {
                     h.push(Stmt::Upd(Tid::P, vec![(ci, r[ci].clone())], gen_where(rng, &sch.p)));
                 } else { h.push(Stmt::Ins(Tid::P, vec![r])); }
+            }
+            (sch, h)
+        }
+        // key-moving multi-row UPDATEs (SET k = k + c / k - c / c - k on a PRIMARY KEY or UNIQUE column
+        // over runs of 2..4 rows, inserted in ascending / descending / mixed order), then INSERT /
+        // UPDATE probes of every value that was or is held
+        "shift" => {
+            let n = 2 + rng.below(2) as usize;
+            let layout = rng.below(4);           // 0: PK x0 (shift x0)  1: PK x0 + UNIQUE x1 (shift x1)  2: PK x0 + UNIQUE x1 (shift x0)  3: UNIQUE x1 only (shift x1)
+            let mut p: Vec<Col> = (0..n).map(|_| Col::plain()).collect();
+            let kc = match layout { 0 => { p[0].key = 1; 0 } 1 => { p[0].key = 1; p[1].key = 2; 1 } 2 => { p[0].key = 1; p[1].key = 2; 0 } _ => { p[1].key = 2; 1 } };
+            if rng.chance(1, 6) { p[kc].chk = Some(Expr::cmp(CmpOp::Lt, Expr::col(kc), Expr::int(rng.range(6, 10)))); }
+            if rng.chance(1, 6) && p[kc].key == 2 { p[kc].nn = true; }
+            let sch = Schema { p, c: vec![] };
+            let rows = 2 + rng.below(3) as i64;
+            let start = rng.range(1, 4); let step = *rng.pick(&[1, 1, 1, 2, 3]);
+            let mut vals: Vec<i64> = (0..rows).map(|i| start + i * step).collect();
+            match rng.below(4) { 0 => vals.reverse(), 1 => { let l = vals.len(); vals.swap(0, l - 1); } _ => {} }
+            let mut fresh = 20i64;
+            let mut held: Vec<i64> = vec![];
+            let mk = |rng: &mut Rng, kv: Val, fresh: &mut i64| -> Vec<Val> {
+                (0..n).map(|c| if c == kc { kv.clone() } else if sch.p[c].key != 0 { *fresh += 1; Val::Int(*fresh) } else { gval(rng, 10) }).collect()
+            };
+            for v in &vals { h.push(Stmt::Ins(Tid::P, vec![mk(rng, Val::Int(*v), &mut fresh)])); held.push(*v); }
+            if sch.p[kc].key == 2 && !sch.p[kc].nn && rng.chance(1, 4) { h.push(Stmt::Ins(Tid::P, vec![mk(rng, Val::Null, &mut fresh)])); }
+            // a row outside the moved range (sometimes exactly where the shift lands)
+            if rng.chance(1, 3) { let v = start + rows * step + rng.below(2) as i64 * 4; h.push(Stmt::Ins(Tid::P, vec![mk(rng, Val::Int(v), &mut fresh)])); held.push(v); }
+            let lo = *vals.iter().min().unwrap(); let hi = *vals.iter().max().unwrap();
+            for round in 0..(1 + rng.below(2)) {
+                let c = *rng.pick(&[1, 1, 2, 3]) * if rng.chance(2, 3) { step } else { 1 };
+                let kcol = || Box::new(Expr::col(kc));
+                let e = match (rng.below(5) + round) % 5 {
+                    0 | 1 => Expr::Arith(ArithOp::Add, kcol(), Box::new(Expr::int(c))),
+                    2 | 3 => Expr::Arith(ArithOp::Sub, kcol(), Box::new(Expr::int(c))),
+                    _ => Expr::Arith(ArithOp::Sub, Box::new(Expr::int(lo + hi + rng.below(2) as i64)), kcol()),
+                };
+                let w = match rng.below(6) {
+                    0 => Some(Expr::cmp(CmpOp::Le, Expr::col(kc), Expr::int(hi))),
+                    1 => Some(Expr::cmp(CmpOp::Gt, Expr::col(kc), Expr::int(lo))),
+                    2 => Some(Expr::cmp(CmpOp::Lt, Expr::col(kc), Expr::int(hi))),
+                    _ => None,
+                };
+                for v in held.clone() { for x in [v + c, v - c, lo + hi - v, lo + hi + 1 - v] { if !held.contains(&x) { held.push(x); } } }
+                h.push(Stmt::UpdE(Tid::P, kc, e, w));
+                // probes: every value that was or is held (both outcomes of the UPDATE), in random order
+                let mut pv = held.clone();
+                for i in (1..pv.len()).rev() { let j = rng.below(i as u64 + 1) as usize; pv.swap(i, j); }
+                pv.truncate(3 + rng.below(4) as usize);
+                for v in pv {
+                    if rng.chance(3, 4) { h.push(Stmt::Ins(Tid::P, vec![mk(rng, Val::Int(v), &mut fresh)])); }
+                    else {
+                        // move one row onto the value with a literal UPDATE addressed by its current key value
+                        let from = *rng.pick(&held);
+                        h.push(Stmt::Upd(Tid::P, vec![(kc, Val::Int(v))], Some(Expr::cmp(CmpOp::Eq, Expr::col(kc), Expr::int(from)))));
+                    }
+                }
             }
             (sch, h)
         }
@@ -554,7 +632,8 @@ fn main() {
 fn families(thorough: bool) -> Vec<Fam> {
     let m = if thorough { 12 } else { 1 };
     vec![Fam { name: "check_good", n: 120 * m }, Fam { name: "check_bad", n: 60 * m }, Fam { name: "unique", n: 160 * m },
-         Fam { name: "fk", n: 160 * m }, Fam { name: "fk_cascade", n: 60 * m }, Fam { name: "fk_scan", n: 40 * m }, Fam { name: "aimed", n: 30 * m }]
+         Fam { name: "fk", n: 160 * m }, Fam { name: "fk_cascade", n: 60 * m }, Fam { name: "fk_scan", n: 40 * m }, Fam { name: "aimed", n: 30 * m },
+         Fam { name: "shift", n: 100 * m }]
 }
 fn nontrivial(obs: &[Obs]) -> bool {
     let acc = obs.iter().any(|o| matches!(o, Obs::Seen(true, p, c) if !p.is_empty() || !c.is_empty()));
@@ -597,7 +676,15 @@ fn search(a: &Args) {
         let f = &fams[(tried % fams.len() as u64) as usize];
         let (sch, h) = gen_history(&mut rng, f.name);
         if let Ok(obs) = sut.run(&sch, &h) {
-            if let Some(i) = oracle(&sch, &h, &obs) { fails.push(format!("{} #k={}", hist_line(&sch, &h[..=i]), tag(&sch, &h[..=i]))); }
+            if let Some(i) = oracle(&sch, &h, &obs) {
+                let refused = matches!(obs[i], Obs::Seen(false, _, _));
+                let k = match &h[i] {
+                    // 20: a key-moving UPDATE is refused although the reference accepts it
+                    Stmt::UpdE(t, c, _, _) if refused && sch.cols(*t)[*c].key != 0 && sch.c.is_empty() => 20,
+                    _ => tag(&sch, &h[..=i]),
+                };
+                fails.push(format!("{} #k={}", hist_line(&sch, &h[..=i]), k));
+            }
         }
         tried += 1;
     }
